@@ -394,3 +394,55 @@ def hold_timeline(t):
             mi += 1
         exp[st] = cur
     return exp, windows
+
+
+def hold_zones(windows, hold, n):
+    """what cat_is_hold must answer after every step: 'H' HOLD, 'O' OK, '?' either.
+
+    HOLD is required from the step in which a command handler returned HOLD up to the release request.  From the request on the
+    statements leave a window: C14 ends the suspension "until release is requested", C18 says HOLD "if and only if a command is
+    currently suspended", and an implementation may leave the suspended state at the request itself, in the service call that acts
+    on it, or when the deferred result code can finally be sent.  So from the step of the request the answer is free until it is OK
+    for the first time; from then on it must stay OK until the next hold begins."""
+    z = ["O"] * n
+    starts = [w[0] for w in windows] + [n]
+    for wi, (start, rel, st) in enumerate(windows):
+        end = rel if rel is not None else n
+        for s in range(start, min(end, n)):
+            z[s] = "H"
+        if rel is not None:
+            s = rel
+            while s < min(starts[wi + 1], n):
+                z[s] = "?"
+                if hold[s] != S.S_HOLD:
+                    break
+                s += 1
+    return z
+
+
+def judge_hold_api(t, z, n):
+    """cat_is_hold / cat_hold_exit calls made between two service calls, judged with the zone after the previous step; a call that
+    follows an accepted release request of the same gap may already see the suspension ended.  Returns (violation or None, spurious
+    cat_hold_exit records)."""
+    spurious = []
+    released_in_gap = {}
+    for a in t.apis:
+        if a.insvc or a.step >= n:
+            continue
+        prev = a.step - 1
+        zone = z[prev] if 0 <= prev < n else "O"
+        if zone == "H" and released_in_gap.get(a.step):
+            zone = "?"
+        if a.name == "ishold":
+            ok = {"H": (S.S_HOLD,), "O": (S.S_OK,), "?": (S.S_HOLD, S.S_OK)}[zone]
+            if a.result not in ok:
+                return ("is-hold", "cat_is_hold queried before service call %d returned %d, allowed %r" % (a.step, a.result, ok)), spurious
+        elif a.name == "holdexit":
+            ok = {"H": (S.S_OK,), "O": (S.S_NOT_HOLD,), "?": (S.S_OK, S.S_NOT_HOLD)}[zone]
+            if a.result not in ok:
+                return ("hold-exit-result", "cat_hold_exit before service call %d returned %d, allowed %r" % (a.step, a.result, ok)), spurious
+            if zone == "H" or (zone == "?" and a.result == S.S_OK):
+                released_in_gap[a.step] = True
+            if zone == "O":
+                spurious.append(a)
+    return None, spurious
